@@ -251,7 +251,7 @@ func (i *interpreter) sprintf(fr *frame, format value, args []value) value {
 				av = s
 			}
 		}
-		if tm, isT := av.(*smt.Term); isT && tm.W > 0 && (spec == "%d" || spec == "%v") {
+		if tm, isT := av.(*smt.Term); isT && tm.W > 0 && (spec == "%d" || spec == "%v") && !i.opaqueInts {
 			if ai, isI := arg.(iface); isI {
 				if w, signed, ok := intInfo(ai.t); ok {
 					sp := i.prog.ImportedPackage("strconv")
@@ -334,7 +334,12 @@ func (i *interpreter) sprint(fr *frame, args []value, ln bool) value {
 func extErrorf(fr *frame, a []value) value {
 	i := fr.i
 	args := a[1].([]value)
+	// error texts: symbolic integers are rendered as opaque placeholders rather than
+	// forking on their digit count (no assertion inspects error text)
+	saved := i.opaqueInts
+	i.opaqueInts = true
 	msg := i.sprintf(fr, a[0], args)
+	i.opaqueInts = saved
 	f, _ := a[0].(string)
 	// find %w operands
 	var wrapped []value
